@@ -424,3 +424,95 @@ def consumer_programs():
                     src = psrc + "try:\n" + "\n".join("    " + l for l in body.split("\n")) + "\nexcept KeyError:\n    print('KeyError')\nexcept ValueError:\n    print('ValueError')\nexcept StopIteration:\n    print('StopIteration escaped')\nexcept TypeError:\n    print('TypeError')\n"
                     out.append((src, dict(producer=pname, consumer=cname, k=k, how=how)))
     return out
+
+# ---------------------------------------------------------------- container histories (C17)
+def container_history_programs(seed, n, maxlen=12):
+    rnd = random.Random(seed * 48271 + 17)
+    out = []
+    for k in range(n):
+        out.append(_container_prog(rnd, rnd.randint(2, maxlen)))
+    return out
+
+def _container_prog(rnd, nops):
+    vals = ["1", "2", "3", "5", "2.5", "0", "1.0", "-4"]      # mutually comparable: a failed sort leaves an unspecified permutation
+    keys = ["'a'", "'b'", "'c'", "'d'"]
+    svals = ["1", "2", "3", "'x'", "'y'", "7"]     # ints and strs only: see the set probes for floats/bools/tuples
+    L = ["l0 = [1, 2, 3]", "l1 = l0", "l2 = list(l0)", "d0 = {'a': 1, 'b': 2}", "d1 = d0", "d2 = dict(d0)", "s0 = {1, 2, 'x'}", "s1 = s0", "s2 = set(s0)",
+         "def dump():\n    print(l0, l1, l2, sorted(d0), [d0[k] for k in sorted(d0)], sorted(d2), sorted(str(e) for e in s0), sorted(str(e) for e in s2), l0 is l1, d0 is d1, s0 is s1)",
+         "def t(f):\n    try:\n        r = f()\n        if r is not None:\n            print('->', r)\n    except IndexError: print('IndexError')\n    except KeyError: print('KeyError')\n    except ValueError: print('ValueError')\n    except TypeError: print('TypeError')\n    dump()"]
+    ops = []
+    lst = lambda: rnd.choice(["l0", "l1", "l2"])
+    dct = lambda: rnd.choice(["d0", "d1", "d2"])
+    st = lambda: rnd.choice(["s0", "s1", "s2"])
+    i = lambda: str(rnd.randint(-4, 4))
+    for _ in range(nops):
+        c = rnd.random()
+        if c < 0.5:
+            a = lst(); op = rnd.choice(["append", "setitem", "delitem", "setslice", "delslice", "extend", "iadd", "imul", "sort", "copy", "in", "len", "eq", "mutiter", "selfop", "getitem", "add", "mul"])
+            v = rnd.choice(vals)
+            if op == "append": ops.append("t(lambda: %s.append(%s))" % (a, v))
+            elif op == "setitem": ops.append("def f():\n    %s[%s] = %s\nt(f)" % (a, i(), v))
+            elif op == "delitem": ops.append("def f():\n    del %s[%s]\nt(f)" % (a, i()))
+            elif op == "setslice": ops.append("def f():\n    %s[%s:%s] = [%s]\nt(f)" % (a, i(), i(), ", ".join(rnd.choice(vals) for _ in range(rnd.randint(0, 3)))))
+            elif op == "delslice": ops.append("def f():\n    del %s[%s:%s:%s]\nt(f)" % (a, i(), i(), rnd.choice(["1", "2", "-1", "-2"])))
+            elif op == "extend": ops.append("t(lambda: %s.extend(%s))" % (a, rnd.choice(["[8, 9]", "(8, 9)", "range(2)", lst(), "iter([5])", "(x for x in (6, 7))"])))
+            elif op == "iadd": ops.append("def f():\n    global %s\n    %s += %s\nt(f)" % (a, a, rnd.choice(["[8]", "(9,)", lst()])))
+            elif op == "imul": ops.append("def f():\n    global %s\n    %s *= %s\nt(f)" % (a, a, rnd.choice(["0", "1", "2"])))
+            elif op == "insert": ops.append("t(lambda: %s.insert(%s, %s))" % (a, i(), v))
+            elif op == "pop": ops.append("t(lambda: %s.pop(%s))" % (a, rnd.choice(["", i()])))
+            elif op == "sort": ops.append("t(lambda: %s.sort())" % a if rnd.random() < 0.5 else "t(lambda: sorted(%s))" % a)
+            elif op == "reverse": ops.append("t(lambda: %s.reverse())" % a)
+            elif op == "copy": ops.append("def f():\n    global l2\n    l2 = %s\nt(f)" % rnd.choice(["list(%s)" % a, "%s[:]" % a, "%s + []" % a, "%s * 1" % a, "[] + %s" % a]))
+            elif op == "add": ops.append("t(lambda: %s + %s)" % (a, lst()))
+            elif op == "mul": ops.append("t(lambda: %s * 2)" % a)
+            elif op == "index": ops.append("t(lambda: %s.index(%s))" % (a, v))
+            elif op == "count": ops.append("t(lambda: %s.count(%s))" % (a, v))
+            elif op == "in": ops.append("t(lambda: %s in %s)" % (v, a))
+            elif op == "len": ops.append("t(lambda: len(%s))" % a)
+            elif op == "eq": ops.append("t(lambda: (%s == %s, %s != %s))" % (a, lst(), a, lst()))
+            elif op == "getitem": ops.append("t(lambda: %s[%s])" % (a, i()))
+            elif op == "remove": ops.append("t(lambda: %s.remove(%s))" % (a, v))
+            elif op == "clear": ops.append("t(lambda: %s.clear())" % a)
+            elif op == "mutiter":
+                ops.append("def f():\n    seen = []\n    for x in %s:\n        seen.append(x)\n        if len(seen) < 6 and len(%s) < 8:\n            %s\n    return seen\nt(f)" % (a, a, rnd.choice(["%s.append(len(seen))" % a, "del %s[0]" % a, "%s[0:0] = [0]" % a, "%s[-1:] = []" % a])))
+            else:
+                ops.append("def f():\n    %s\nt(f)" % rnd.choice(["%s.extend(%s)" % (a, a), "%s[1:2] = %s" % (a, a), "%s[:] = %s" % (a, a), "%s[::2] = %s[::2]" % (a, a)]))
+        elif c < 0.78:
+            a = dct(); k = rnd.choice(keys); v = rnd.choice(vals)
+            op = rnd.choice(["set", "del", "get", "getitem", "in", "len", "keys", "values", "items", "eq", "copy", "mutiter"])
+            if op == "set": ops.append("def f():\n    %s[%s] = %s\nt(f)" % (a, k, v))
+            elif op == "del": ops.append("def f():\n    del %s[%s]\nt(f)" % (a, k))
+            elif op == "get": ops.append("t(lambda: %s.get(%s, 'dflt'))" % (a, k))
+            elif op == "getitem": ops.append("t(lambda: %s[%s])" % (a, k))
+            elif op == "in": ops.append("t(lambda: (%s in %s, %s not in %s))" % (k, a, k, a))
+            elif op == "len": ops.append("t(lambda: len(%s))" % a)
+            elif op == "update": ops.append("t(lambda: %s.update(%s))" % (a, rnd.choice(["{'c': 3}", dct(), "{}"])))
+            elif op == "keys": ops.append("t(lambda: sorted(%s.keys()))" % a)
+            elif op == "values": ops.append("t(lambda: sorted(str(v) for v in %s.values()))" % a)
+            elif op == "items": ops.append("t(lambda: sorted(k for k, v in %s.items()))" % a)
+            elif op == "eq": ops.append("t(lambda: (%s == %s, %s != %s))" % (a, dct(), a, dct()))
+            elif op == "copy": ops.append("def f():\n    global d2\n    d2 = %s\nt(f)" % rnd.choice(["dict(%s)" % a, "dict((k, %s[k]) for k in %s)" % (a, a)]))
+            elif op == "pop": ops.append("t(lambda: %s.pop(%s))" % (a, k))
+            elif op == "setdefault": ops.append("t(lambda: %s.setdefault(%s, %s))" % (a, k, v))
+            elif op == "clear": ops.append("t(lambda: %s.clear())" % a)
+            else: ops.append("t(lambda: sorted(k for k in %s))" % a)
+        else:
+            a = st(); v = rnd.choice(svals)
+            op = rnd.choice(["add", "in", "len", "union", "inter", "diff", "symdiff", "eq", "copy", "iter", "iunion"])
+            if op == "add": ops.append("t(lambda: %s.add(%s))" % (a, v))
+            elif op == "in": ops.append("t(lambda: (%s in %s, %s not in %s))" % (v, a, v, a))
+            elif op == "len": ops.append("t(lambda: len(%s))" % a)
+            elif op == "union": ops.append("t(lambda: sorted(str(e) for e in (%s | %s)))" % (a, st()))
+            elif op == "inter": ops.append("t(lambda: sorted(str(e) for e in (%s & %s)))" % (a, st()))
+            elif op == "diff": ops.append("t(lambda: sorted(str(e) for e in (%s - {%s})))" % (a, v))
+            elif op == "symdiff": ops.append("t(lambda: sorted(str(e) for e in (%s ^ {%s, 99})))" % (a, v))
+            elif op == "eq": ops.append("t(lambda: (%s == %s, %s != %s))" % (a, st(), a, st()))
+            elif op == "copy": ops.append("def f():\n    global s2\n    s2 = %s\nt(f)" % rnd.choice(["set(%s)" % a, "%s | set()" % a]))
+            elif op == "iter": ops.append("t(lambda: sorted(str(e) for e in %s))" % a)
+            elif op == "discard": ops.append("t(lambda: %s.discard(%s))" % (a, v))
+            elif op == "remove": ops.append("t(lambda: %s.remove(%s))" % (a, v))
+            elif op == "iunion": ops.append("def f():\n    global %s\n    %s |= {%s}\nt(f)" % (a, a, v))
+            elif op == "sub": ops.append("t(lambda: ({%s} <= %s, %s >= {%s}))" % (v, a, a, v))
+            elif op == "clear": ops.append("t(lambda: %s.clear())" % a)
+            else: ops.append("t(lambda: %s.update([%s, 5]))" % (a, v))
+    return "\n".join(L + ops) + "\n", dict(nops=nops)
